@@ -686,3 +686,8 @@ def b_native(B):
                 B.case((kind, tuple(hist)), ok, detail={"rets": rets}, inputs={"kind": "history", "probe": kind, "history": hist})
             finally:
                 shutil.rmtree(d, ignore_errors=True)
+
+
+# ----------------------------------------------------------------------------- contracts of dependencies this property rests on (re-checked here)
+from pyvc.api import depends  # noqa: E402
+depends(PROPERTY, "C17", ["firstlast"])      # check_NP24 iterates the window generator under its contract
